@@ -114,6 +114,7 @@ struct Proc {
 	uint64_t nread = 0;
 	int out_inode = -1;  // -1: fd 1
 	int mode = M_NONE, param = 0;
+	int code = 1;                 // exit code of a planned failure, or wait status of a planned fatal signal
 	int own_steps = 0, nwritten = 0;
 	int pending_sig = 0;
 	int wstatus = 0;
@@ -272,6 +273,7 @@ void Kernel::start_tool(Proc &p) {
 	bool have_o = false;
 	for (size_t i = 1; i < p.argv.size(); i++) {
 		const std::string &a = p.argv[i];
+		if (a.empty()) continue;  // an empty argument (-Wa, with an empty list element) names nothing
 		if (a.size() > 1 && a[0] == '-') {
 			if (takes_arg(p.kind, a)) {
 				if (i + 1 >= p.argv.size()) { die(p, 1 << 8, true, false, "option lacks argument"); return; }
@@ -283,7 +285,7 @@ void Kernel::start_tool(Proc &p) {
 		pos.push_back(a);
 	}
 	if (p.mode == M_EXIT1_BEFORE_READ && (p.param & 1)) {
-		die(p, 1 << 8, true, true, "exit 1 before opening anything");
+		die(p, p.code << 8, true, true, "exit before opening anything");
 		return;
 	}
 	if (have_o) {
@@ -314,7 +316,7 @@ void Kernel::start_tool(Proc &p) {
 			}
 			objs.push_back(inodes[it->second].data);
 		}
-		if (p.mode == M_EXIT1_BEFORE_READ) { die(p, 1 << 8, true, true, "exit 1 before reading"); return; }
+		if (p.mode == M_EXIT1_BEFORE_READ) { die(p, p.code << 8, true, true, "exit before reading"); return; }
 		Content out = link_transform(objs);
 		for (uint64_t u : out) p.outq.push_back(u);
 		p.eof = true;
@@ -331,7 +333,7 @@ void Kernel::start_tool(Proc &p) {
 		p.in_src = 0;
 		if (p.fds.find(0) == p.fds.end()) { die(p, 1 << 8, true, false, "stdin closed"); return; }
 	}
-	if (p.mode == M_EXIT1_BEFORE_READ) { die(p, 1 << 8, true, true, "exit 1 before reading"); return; }
+	if (p.mode == M_EXIT1_BEFORE_READ) { die(p, p.code << 8, true, true, "exit before reading"); return; }
 	p.outq.push_back(unit_hdr(p.kind));
 	p.phase = PH_WRITE;
 }
@@ -382,7 +384,7 @@ void Kernel::step_proc(Proc &p) {
 	}
 	if (p.mode == M_SIGKILL && step >= p.param) { die(p, SIGKILL, true, true, "SIGKILL"); return; }
 	p.own_steps++;
-	if (p.mode == M_SIGSEGV && p.own_steps > p.param) { die(p, SIGSEGV | 0x80, true, true, "SIGSEGV"); return; }
+	if (p.mode == M_SIGSEGV && p.own_steps > p.param) { die(p, p.code, true, true, "fatal signal (SIGSEGV class)"); return; }
 	switch (p.phase) {
 	case PH_START:
 		start_tool(p);
@@ -428,14 +430,14 @@ void Kernel::step_proc(Proc &p) {
 		}
 		p.outq.pop_front();
 		p.nwritten++;
-		if (p.mode == M_EXIT1_AFTER_HALF && p.nwritten >= p.param) { die(p, 1 << 8, true, true, "exit 1 after writing part"); return; }
+		if (p.mode == M_EXIT1_AFTER_HALF && p.nwritten >= p.param) { die(p, p.code << 8, true, true, "exit after writing part"); return; }
 		if (p.outq.empty()) p.phase = p.eof ? PH_EXIT : PH_READ;
 		break;
 	}
 	case PH_EXIT:
-		if (p.mode == M_EXIT1_AFTER_HALF) { die(p, 1 << 8, true, true, "exit 1 after writing part"); return; }
+		if (p.mode == M_EXIT1_AFTER_HALF) { die(p, p.code << 8, true, true, "exit after writing part"); return; }
 		if (p.out_inode >= 0) inodes[p.out_inode].complete = true;
-		if (p.mode == M_EXIT1_AFTER_ALL) { die(p, 1 << 8, true, true, "exit 1 after finishing"); return; }
+		if (p.mode == M_EXIT1_AFTER_ALL) { die(p, p.code << 8, true, true, "exit after finishing"); return; }
 		die(p, 0, false, false, "exit 0");
 		break;
 	}
@@ -607,7 +609,7 @@ int __wrap_posix_spawnp(pid_t *pidp, const char *file, const posix_spawn_file_ac
 	if (ev.in_kind == FD_PIPER && K->pipes[ev.in_pipe].group >= 0) p.group = K->pipes[ev.in_pipe].group;
 	else p.group = K->next_group++;
 	if (ev.out_kind == FD_PIPEW) K->pipes[ev.out_pipe].group = p.group;
-	for (auto &pl : K->sc->plans) if (pl.kind == kind && pl.occ == p.occ) { p.mode = pl.mode; p.param = pl.param; }
+	for (auto &pl : K->sc->plans) if (pl.kind == kind && pl.occ == p.occ) { p.mode = pl.mode; p.param = pl.param; p.code = pl.mode == M_SIGSEGV ? (pl.code ? pl.code : (SIGSEGV | 0x80)) : (pl.code ? pl.code : 1); }
 	ev.pid = p.pid; ev.ok = true; ev.group = p.group;
 	K->spawns.push_back(ev);
 	K->procs.push_back(p);
